@@ -307,6 +307,30 @@ func runFrame(id string, toks []string) (res string) {
 			released = append(released, d...)
 		}
 		return "out=" + hx(released) + " st=clean"
+	case "xdec":
+		// xdec <shared> <m1> <m2>   two sessions (two connections) receive at the same time: session 1 has decrypted a frame
+		// that its caller has read only one byte of when session 2 decrypts its frame; then both callers read on.
+		// Each must get exactly what its own peer sent.
+		k1 := sharedKey(toks[1])
+		k2 := k1
+		k2[0] ^= 0xff
+		m1, m2 := unhex(toks[2]), unhex(toks[3])
+		s1, s2 := newSess("srv", k1), newSess("srv", k2)
+		w1 := refSealFrames(refKey(k1[:], encLabel["cli"]), 0, m1)
+		w2 := refSealFrames(refKey(k2[:], encLabel["cli"]), 0, m2)
+		r1, err := s1.Decrypt(bytes.NewBuffer(w1))
+		if err != nil {
+			return "r1=err"
+		}
+		one := make([]byte, 1)
+		n1, _ := r1.Read(one)
+		r2, err := s2.Decrypt(bytes.NewBuffer(w2))
+		if err != nil {
+			return "r2=err"
+		}
+		rest1, _ := ioutil.ReadAll(r1)
+		all2, _ := ioutil.ReadAll(r2)
+		return "r1=" + hx(append(one[:n1], rest1...)) + " r2=" + hx(all2)
 	case "sealf":
 		// sealf <shared> <role> <chunk|->...   a peer that frames by itself: one frame per chunk, empty chunks included
 		k := sharedKey(toks[1])
